@@ -343,7 +343,7 @@ func runC16(c *Ctx) {
 		c.Count("real_process_runs")
 		out := r.Stdout + r.Stderr
 		gen, gerr := os.ReadFile(filepath.Join(dir, "gen_m.go"))
-		rep := map[string]any{"case": cs, "fc_exit": r.Exit, "fc_output": trunc(out, 2000), "how": "fc <foi> m.fo under timeout 10s, ulimit -v 4GB"}
+		rep := map[string]any{"case": cs, "fc_exit": r.Exit, "fc_output": trunc(out, 2000), "how": "fc <foi> m.fo under timeout 10s (60s on retry), ulimit -v 4GB"}
 		switch {
 		case r.TimedOut:
 			c.Violate("hang", "fc does not terminate (killed after 10 s, then alone after 120 s) on a "+cs.Kind+" input", rep, false)
@@ -528,15 +528,20 @@ func c16Faults(c *Ctx) {
 func c16LoadReplay(path string) []c16Case {
 	var doc struct {
 		Replay struct {
-			Case *c16Case `json:"case"`
+			Case   *c16Case `json:"case"`
+			BufHex *string  `json:"buf_hex"` // scanner-correspondence replays (c16_scan.go)
 		} `json:"replay"`
 	}
 	b, err := os.ReadFile(path)
 	if err != nil {
 		panic(err)
 	}
-	if err := jsonUnmarshal(b, &doc); err != nil || doc.Replay.Case == nil {
+	if err := jsonUnmarshal(b, &doc); err != nil || (doc.Replay.Case == nil && doc.Replay.BufHex == nil) {
 		panic("replay file has no case")
+	}
+	if doc.Replay.Case == nil {
+		// the buffer is also given to the whole compiler; c16Scanner re-runs the correspondence on it
+		return []c16Case{{Src: c16ReplayBuf(path), Kind: "scanner-replay"}}
 	}
 	return []c16Case{*doc.Replay.Case}
 }
